@@ -50,7 +50,7 @@ HasBudget        == Mode # "REF"
 
 Slots  == {"0", "1"}
 Precompiles == {"P1", "P2", "P3", "P4", "P5", "P6", "P7", "P8"}
-Small(x) == x \in {"0", "1", "2"}
+Small(x) == x \in {"0", "1", "2", "3", "4"}
 
 RDEmpty == [sz |-> 0, a |-> "0", o |-> "0"]
 RD32(x) == [sz |-> 32, a |-> x, o |-> "0"]
@@ -87,7 +87,10 @@ InitSt ==
 
 Frame(self, codeOf, static, caller, value, input, kind, snapSt, snapLogs, fg) ==
   [self |-> self, codeOf |-> codeOf, pc |-> 1, acc |-> "0", ok |-> "0", rd |-> RDEmpty, static |-> static,
-   caller |-> caller, value |-> value, input |-> input, kind |-> kind, snapSt |-> snapSt, snapLogs |-> snapLogs, fg |-> fg]
+   caller |-> caller, value |-> value, input |-> input, kind |-> kind, snapSt |-> snapSt, snapLogs |-> snapLogs, fg |-> fg,
+   \* output window of the CALL family: memory words 2 and 3 of the frame, pre-filled with the markers "3" / "4" by
+   \* the prologue every contract starts with; win = size (0/32/64) of the window of the call in progress
+   w1 |-> "3", w2 |-> "4", win |-> 0]
 
 Init ==
   /\ code = [c \in Contracts |-> <<>>]
@@ -107,6 +110,12 @@ Cut(M) == [M EXCEPT !.fr = <<>>, !.res = [class |-> "cut", rd |-> RDEmpty]]
 Top(M) == M.fr[Len(M.fr)]
 SetTop(M, f) == [M EXCEPT !.fr[Len(M.fr)] = f]
 Next1(M) == SetTop(M, [Top(M) EXCEPT !.pc = @ + 1])
+(* memory.Set(retOffset, retSize, ret): the callee's return OR revert data is copied into the caller's output window,
+   as much of it as there is and as the window holds; a failed call (no data) leaves the window untouched *)
+Win(o) == IF o.k = "32" THEN 32 ELSE IF o.k = "64" THEN 64 ELSE 0
+CopyWin(f, rd, win) == [f EXCEPT !.w1 = IF win >= 32 /\ rd.sz >= 32 THEN rd.a ELSE @,
+                                 !.w2 = IF win = 64 /\ rd.sz = 64 THEN rd.o ELSE @]
+
 Push0(M) == SetTop(M, [Top(M) EXCEPT !.pc = @ + 1, !.ok = "0", !.rd = RDEmpty])   \* a CALL/CREATE that does not start
 
 SetCode(s, a, data) ==
@@ -137,7 +146,8 @@ Finish(M, outcome, data) ==
              res |-> [class |-> (IF eff = "ok" THEN "success" ELSE IF eff = "revert" THEN "revert" ELSE "failure"),
                       rd |-> (IF eff = "fail" THEN RDEmpty ELSE data)]]
        ELSE LET p == M.fr[n - 1]
-                p2 == [p EXCEPT !.ok = okw, !.rd = rd1, !.pc = @ + 1]
+                p1 == [p EXCEPT !.ok = okw, !.rd = rd1, !.pc = @ + 1]
+                p2 == IF isCreate THEN p1 ELSE CopyWin(p1, rd1, p.win)
             IN [fr |-> Append(SubSeq(M.fr, 1, n - 2), p2), st |-> st1, logs |-> lg1, dev |-> dev1, res |-> M.res,
                 mk |-> M.mk \cup {"sub-" \o (IF isCreate THEN "create" ELSE "call") \o "-" \o eff}
                             \cup (IF isCreate /\ eff = "ok" /\ data.sz # 0 /\ ~depositFails THEN {"code-deposited"} ELSE {})]
@@ -175,11 +185,12 @@ DoCall(M, o) ==
      ELSE IF pfe THEN Push0([M1 EXCEPT !.dev = @ \cup {"pfe"}])        \* refuses the caller: the call fails
      ELSE IF t \in Precompiles THEN
             LET r == PreRes(t, f.acc) IN
-            IF r.ok THEN SetTop([M1 EXCEPT !.st = moved], [f EXCEPT !.pc = @ + 1, !.ok = "1", !.rd = r.rd])
+            IF r.ok THEN SetTop([M1 EXCEPT !.st = moved], CopyWin([f EXCEPT !.pc = @ + 1, !.ok = "1", !.rd = r.rd], r.rd, Win(o)))
                     ELSE Push0(M1)
      ELSE IF cd \in Contracts THEN
             [M1 EXCEPT !.st = moved,
-                       !.fr = Append(M.fr, Frame(self2, cd, stat2, cal2, val2, f.acc, "call", M.st, M.logs, "low"))]
+                       !.fr = Append(SubSeq(M.fr, 1, Len(M.fr) - 1) \o <<[f EXCEPT !.win = Win(o)]>>,
+                                     Frame(self2, cd, stat2, cal2, val2, f.acc, "call", M.st, M.logs, "low"))]
      ELSE \* no code there: the call succeeds at once with empty return data
           SetTop([M1 EXCEPT !.st = moved], [f EXCEPT !.pc = @ + 1, !.ok = "1", !.rd = RDEmpty])
 
@@ -209,7 +220,7 @@ Apply(M, o) ==
   IN
   IF blocked THEN Finish(Mark(M, "static-blocked"), "fail", RDEmpty)
   ELSE CASE o.op = "SSTORE" ->
-              LET v == IF o.v = "acc" THEN f.acc ELSE o.v
+              LET v == IF o.v = "acc" THEN f.acc ELSE IF o.v = "w1" THEN f.w1 ELSE IF o.v = "w2" THEN f.w2 ELSE o.v
                   a == Get(M.st, f.self)
               IN Next1([Ms EXCEPT !.st = Put(M.st, f.self, [a EXCEPT !.stor[o.k] = v])])
          [] o.op = "SLOAD"     -> SetTop(M, [f EXCEPT !.pc = @ + 1, !.acc = Get(M.st, f.self).stor[o.k]])
